@@ -135,13 +135,32 @@ def walk_reference(S, v, depth_final):
     return T
 
 
-def walk_obligations(S, v, m):
+def _near(a, b, tol):
+    """|a - b| <= tol * (1 + |b|): used where the code folds float constants that the reference keeps exact."""
+    if tol is None or not (core.is_sym(a) or core.is_sym(b)):
+        return eq(a, b)
+    la, lb = core.lift(a), core.lift(b)
+    bound = core.rv(tol) * (1 + z3.If(lb >= 0, lb, -lb))
+    return SymBool(z3.And(la - lb <= bound, lb - la <= bound))
+
+
+def _le_tol(a, b, tol):
+    if core.is_sym(a) or core.is_sym(b):
+        la, lb = core.lift(a), core.lift(b)
+        if tol is None:
+            return SymBool(la <= lb)
+        return SymBool(la <= lb + core.rv(tol) * (1 + z3.If(lb >= 0, lb, -lb)))
+    return float(a) <= float(b) * (1 + 1e-9) + 1e-9
+
+
+def walk_obligations(S, v, m, tol=None):
     r = m.reserv
     d = r.depth.value
+    eq = lambda a, b: _near(a, b, tol)       # noqa: E731
     out = [('bottom-hole temperature = surface temperature + integral of the segment gradients down to the (reduced) depth',
             eq(r.Trock.value, walk_reference(S, v, d))),
-           ('bottom-hole temperature does not exceed the maximum temperature', r.Trock.value <= v['Tmax'] if core.is_sym(r.Trock.value) else r.Trock.value <= v['Tmax'] * (1 + 1e-9) + 1e-9),
-           ('depth is never increased', d <= v['depth']),
+           ('bottom-hole temperature does not exceed the maximum temperature', _le_tol(r.Trock.value, v['Tmax'], tol)),
+           ('depth is never increased', _le_tol(d, v['depth'], tol)),
            ('depth is reduced only as needed: either unchanged or bottom-hole temperature = Tmax',
             sor(eq(d, v['depth']), eq(r.Trock.value, v['Tmax'])))]
     return out
@@ -193,6 +212,92 @@ def run_walk(unit):
         for name, cond in obs:
             harness.discharge(log, pr.ctx, name, cond, zv, lambda inp, name=name: concrete(inp, name), timeout_ms=30000,
                               sample=(n == 1), desc=f'{name} [S={S}]')
+    yield log.result()
+
+
+# ---- the same walk, entered through the real reader: values as the user states them (km, degC/km) ---------------------------------
+INPUT_RANGES = {'Surface Temperature': (-50, 50), 'Maximum Temperature': (50, 600), 'Reservoir Depth': (0.1, 15), 'Gradient': (2, 500), 'Thickness': (0.011, 99)}
+
+
+def run_walk_input(unit):
+    """Reservoir.read_parameters (with its magnitude heuristics) + the layer walk, the numeric tokens of the input lines symbolic.  The
+    ranges are the part of the input domain where the documented units are unambiguous: depth and thicknesses in km (thickness < 100),
+    gradients in degC/km (> 1)."""
+    from . import c07
+    P = gx.P
+    S = unit['S']
+    cfg = {'harness': 'layerwalk-from-input-lines', 'S': S}
+    log = harness.UnitLog(cfg)
+    lines = ['Surface Temperature', 'Maximum Temperature', 'Reservoir Depth'] + [f'Gradient {i + 1}' for i in range(S)] + [f'Thickness {i + 1}' for i in range(S - 1)]
+    rng = {n: INPUT_RANGES[n if n in INPUT_RANGES else n.split(' ')[0]] for n in lines}
+    fresh, _, _ = gx.make_source('geophires_x.TDPReservoir', 'TDPReservoir')
+    g0, th0 = list(fresh.gradient.value), list(fresh.layerthickness.value)
+
+    def drive(vals, symbolic):
+        m = base_model(4, S, 2, 2)
+        r = m.reserv
+        r.gradient.value, r.layerthickness.value = list(g0), list(th0)      # as a freshly constructed reservoir holds them
+        entries = {'Number of Segments': P.ParameterEntry(Name='Number of Segments', sValue=str(S), raw_entry=f'Number of Segments, {S}')}
+        for n in lines:
+            if symbolic:
+                tok = c07.NumStr('SYMV')
+                tok.proxy = vals[n]
+            else:
+                tok = repr(float(vals[n]))
+            entries[n] = P.ParameterEntry(Name=n, sValue=tok, raw_entry=f'{n}, {tok}')
+        m.InputParameters = entries
+        import contextlib
+        import io
+        with contextlib.redirect_stdout(io.StringIO()):
+            if symbolic:
+                with shim.shadow(*(list(c07.param_shadows()) + RES_SHADOWS)):
+                    R.Reservoir.read_parameters(r, m)
+                    R.Reservoir.Calculate.__wrapped__(r, m)
+            else:
+                R.Reservoir.read_parameters(r, m)
+                R.Reservoir.Calculate.__wrapped__(r, m)
+        return m
+
+    def stated(vals):
+        """what the input lines state, in the walk's units (m, degC/m)."""
+        v = {'Tsurf': vals['Surface Temperature'], 'Tmax': vals['Maximum Temperature'], 'depth': vals['Reservoir Depth'] * 1000.0}
+        for i in range(S):
+            v[f'gradient[{i}]'] = vals[f'Gradient {i + 1}'] / 1000.0
+        for i in range(S - 1):
+            v[f'thickness[{i}]'] = vals[f'Thickness {i + 1}'] * 1000.0
+        return v
+
+    def fn():
+        vals = {n: sym(n, *rng[n]) for n in lines}
+        m = drive(vals, True)
+        return walk_obligations(S, stated(vals), m, tol=1e-9)
+
+    def concrete(inp, only=None):
+        vals = {n: float(inp[n]) for n in lines}
+        try:
+            m = drive(vals, False)
+        except Exception as e:
+            return False, {'raised': repr(e)[:200]}
+        v = stated(vals)
+        obs = walk_obligations(S, v, m, tol=1e-9)
+        bad = [n for n, ok in obs if not ok and (only is None or n == only)]
+        return bool(bad), {'failed': bad, 'input lines': {n: vals[n] for n in lines}, 'Trock': float(m.reserv.Trock.value), 'depth used (m)': float(m.reserv.depth.value),
+                           'gradients used (degC/m)': [float(x) for x in m.reserv.gradient.value[:S]], 'thicknesses used (m)': [float(x) for x in m.reserv.layerthickness.value[:S]],
+                           'reference from the stated inputs': float(walk_reference(S, v, m.reserv.depth.value))}
+    zv = {n: z3.Real(n) for n in lines}
+    n = 0
+    for pr in core.explore(fn, max_paths=8000, catch=(ValueError, RuntimeError, IndexError)):
+        log.path(pr)
+        n += 1
+        if pr.aborted:
+            continue
+        if pr.error is not None:
+            log.note(f'reader / layer walk raised {type(pr.error).__name__} on a path (no result; outside the property)')
+            continue
+        harness.reachable(log, pr.ctx, 3000)
+        for name, cond in pr.value:
+            harness.discharge(log, pr.ctx, 'from the input lines: ' + name, cond, zv, lambda inp, name=name: concrete(inp, name), timeout_ms=30000,
+                              sample=(n == 1), desc=f'{name} [S={S}, through Reservoir.read_parameters]')
     yield log.result()
 
 
@@ -447,6 +552,7 @@ def _ge(a, b):
 # -------------------------------------------------------------------------------------------------------------
 def units(tier, seed):
     us = [{'harness': 'layerwalk', 'S': S} for S in (1, 2, 3, 4)]
+    us += [{'harness': 'layerwalk-input', 'S': S} for S in ((1, 2) if tier == 'quick' else (1, 2, 3))]
     for (L, T) in NS[tier]:
         for model in (1, 2, 3, 4):
             us.append({'harness': 'history', 'model': model, 'L': L, 'T': T})
@@ -462,6 +568,8 @@ def run_unit(unit):
     h = unit['harness']
     if h == 'layerwalk':
         yield from run_walk(unit)
+    elif h == 'layerwalk-input':
+        yield from run_walk_input(unit)
     elif h == 'history':
         yield from run_history(unit)
     else:
